@@ -423,16 +423,25 @@ class _Flow:
         self.raises = []    # (line, exception text, stack)
         self.dict_vars = {}  # name -> keys of the dict literal it was initialised with (top-level assignment)
 
+    def _walk(self, node):
+        """ast.walk without the (never evaluated) annotation of a local AnnAssign."""
+        if isinstance(node, ast.AnnAssign):
+            for part in (node.target, node.value):
+                if part is not None:
+                    yield from ast.walk(part)
+        else:
+            yield from ast.walk(node)
+
     def expr_calls(self, node, stack):
-        calls = [n for n in ast.walk(node) if isinstance(n, ast.Call)]
-        for n in ast.walk(node):
+        calls = [n for n in self._walk(node) if isinstance(n, ast.Call)]
+        for n in self._walk(node):
             if isinstance(n, (ast.Lambda, ast.Yield, ast.YieldFrom)):
                 raise TranslateError(f"{self.where}: {type(n).__name__} at line {n.lineno} is not understood")
         calls.sort(key=lambda c: (c.end_lineno, c.end_col_offset))   # inner calls complete first
         for c in calls:
             self.sites.append((c.lineno, ast.unparse(c.func), [list(x) for x in stack]))
         # implicit operations that may raise: subscripts on non-literal containers are recorded as pseudo-sites
-        for n in ast.walk(node):
+        for n in self._walk(node):
             if isinstance(n, ast.Subscript) and isinstance(n.ctx, ast.Load):
                 self.sites.append((n.lineno, "<subscript>" + ast.unparse(n.value), [list(x) for x in stack]))
 
@@ -539,10 +548,28 @@ def _flow_of(fn, where):
     return fl
 
 
+def _cmt(text, stack):
+    t = text.replace("(*", "( *").replace("*)", "* )").replace('"', "'")
+    st = " <- ".join("try[" + ",".join(x) + "]" for x in stack)
+    return "(* " + t[:70] + ((" | " + st) if st else "") + " *)"
+
+
+def _with_ord(sites):
+    seen = {}
+    out = []
+    for ln, callee, stack in sites:
+        k = seen.get(callee, 0)
+        seen[callee] = k + 1
+        out.append((ln, callee, k, stack))
+    return out
+
+
 def _emit_flow(name, fl):
-    sites = [f"mkSite {ln} {coq_str(callee)} {_coq_stack(stack)}" for ln, callee, stack in fl.sites]
-    rets = [f"({ln}, {coq_str(shape)})" for ln, shape in fl.returns]
-    raises = [f"mkSite {ln} {coq_str('raise ' + txt)} {_coq_stack(stack)}" for ln, txt, stack in fl.raises]
+    sites = [f"{_cmt(callee, stack)} mkSite {ln} {coq_str(callee)} {k} {_coq_stack(stack)}"
+             for ln, callee, k, stack in _with_ord(fl.sites)]
+    rets = [f"{_cmt(shape, [])} ({ln}, {coq_str(shape)})" for ln, shape in fl.returns]
+    raises = [f"mkSite {ln} {coq_str(txt)} {k} {_coq_stack(stack)}"
+              for ln, txt, k, stack in _with_ord([(ln, 'raise ' + t, stack) for ln, t, stack in fl.raises])]
     dvars = [f"({coq_str(k)}, {coq_strlist(v)})" for k, v in sorted(fl.dict_vars.items())]
     return (f"Definition {name}_sites : list site :=\n  {coq_list(sites, 'site')}.\n"
             f"Definition {name}_raises : list site :=\n  {coq_list(raises, 'site')}.\n"
@@ -584,7 +611,8 @@ def _gen_exnflow(src):
     out.append("(* envelope helpers: (tool, helper, keys present in every returned dict) *)\n")
     out.append(f"Definition flow_helpers : list (list N * list N * list (list N)) :=\n  {coq_list(hitems)}.\n")
     for t, h, _, sites in helpers:
-        items = [f"mkSite {ln} {coq_str(c)} {_coq_stack([list(x) for x in stk])}" for ln, c, stk in sites]
+        items = [f"mkSite {ln} {coq_str(c)} {k} {_coq_stack(stk)}"
+                 for ln, c, k, stk in _with_ord([(ln, c, [list(x) for x in stk]) for ln, c, stk in sites])]
         out.append(f"Definition flow_{t}_helper_{h.strip('_')}_sites : list site :=\n  {coq_list(items, 'site')}.\n")
     # server.handle_call_tool
     smod = parse_file(src / "mcp" / "server.py")
@@ -601,3 +629,143 @@ def _gen_exnflow(src):
 
 def generate(src):
     return {"ParserLoopsGen.v": _gen_parser_loops(src), "ExnFlowGen.v": _gen_exnflow(src)}
+
+
+# ======================================================================================================
+# self-test (run by hand / thorough tier):  python -m translate.exnflow_t
+#   mutates a COPY of the source tree, re-runs the translator on it and compiles the obligations against the
+#   mutated Gen files in a scratch directory; reports which lemma stops compiling.  /repo is never touched.
+# ======================================================================================================
+def _mutations():
+    def rep(old, new, count=1):
+        def f(txt):
+            assert txt.count(old) >= 1, f"mutation anchor not found: {old[:50]!r}"
+            return txt.replace(old, new, count)
+        return f
+
+    def untry(call_text):
+        """replace the first `try` whose body contains `call_text` by its body."""
+        def f(txt):
+            mod = ast.parse(txt)
+            done = [False]
+
+            class T(ast.NodeTransformer):
+                def visit_Try(self, node):
+                    self.generic_visit(node)
+                    if not done[0] and any(call_text in ast.unparse(s) for s in node.body) \
+                            and not any(isinstance(s, ast.Try) and call_text in ast.unparse(s) for s in node.body):
+                        done[0] = True
+                        return node.body
+                    return node
+            mod = T().visit(mod)
+            assert done[0], f"no try around {call_text}"
+            return ast.unparse(ast.fix_missing_locations(mod))
+        return f
+
+    return [
+        ("M1 validate: try around parse_with_warnings removed", "mcp/validate.py", untry("parse_with_warnings(content)"), "no_escape_validate"),
+        ("M2 write: try around tokenize removed", "mcp/write.py", untry("tokenize(parse_input)"), "no_escape_write"),
+        ("M3 compile_grammar: try around parse removed", "mcp/compile_grammar.py", untry("doc = parse(content)"), "no_escape_compile_grammar"),
+        ("M4 eject: json.dumps wrapped in try (defect fixed)", "mcp/eject.py",
+         rep("            output = json.dumps(data, indent=2, ensure_ascii=False)\n",
+             "            try:\n                output = json.dumps(data, indent=2, ensure_ascii=False)\n"
+             "            except TypeError:\n                output = ''\n"), "no_escape_eject_refuted"),
+        ("M5 validate: a return without status", "mcp/validate.py",
+         rep("        if content is None and file_path is None:\n",
+             "        if content == 'x':\n            return {'canonical': content}\n        if content is None and file_path is None:\n"),
+         "envelopes_have_status"),
+        ("M6 validate: new unclassified call outside any try", "mcp/validate.py",
+         rep("        schema_def = get_builtin_schema(schema_name)\n",
+             "        schema_def = get_builtin_schema(schema_name)\n        frobnicate(doc)\n"), "no_escape_validate"),
+        ("M7 write: handler of the lenient parse narrowed to ValueError", "mcp/write.py",
+         rep("                    corrections.extend(self._map_parse_warnings_to_corrections(parse_warnings))\n                except Exception as e:",
+             "                    corrections.extend(self._map_parse_warnings_to_corrections(parse_warnings))\n                except ValueError as e:"),
+         "no_escape_write"),
+        ("P1 parser: advance() dropped from the NEWLINE branch of parse_document", "core/parser.py",
+         rep("            if self.current().type == TokenType.NEWLINE:\n                self.advance()\n                continue\n\n            # Parse section (assignment or block) with pending comments",
+             "            if self.current().type == TokenType.NEWLINE:\n                continue\n\n            # Parse section (assignment or block) with pending comments"),
+         "parser_loops_consume"),
+        ("P2 parser: EOF conjunct dropped from a bracket-skipping guard", "core/parser.py",
+         rep("            while bracket_depth > 0 and self.current().type != TokenType.EOF:\n                if self.current().type == TokenType.LIST_START:\n                    bracket_depth += 1\n                elif self.current().type == TokenType.LIST_END:\n                    bracket_depth -= 1\n                self.advance()\n            return None\n\n        # Capture mode",
+             "            while bracket_depth > 0:\n                if self.current().type == TokenType.LIST_START:\n                    bracket_depth += 1\n                elif self.current().type == TokenType.LIST_END:\n                    bracket_depth -= 1\n                self.advance()\n            return None\n\n        # Capture mode"),
+         "parser_loops_ok"),
+        ("P3 parser: MAX_NESTING_DEPTH raised", "core/parser.py", rep("MAX_NESTING_DEPTH = 100", "MAX_NESTING_DEPTH = 100000"), "pin_parser_max_nesting_depth"),
+        ("P4 parser: advance() no longer clamps", "core/parser.py",
+         rep("        if self.pos < len(self.tokens) - 1:\n            self.pos += 1\n        return token", "        self.pos += 1\n        return token"),
+         "pin_parser_advance_src"),
+        ("P5 parser: backtracking write to self.pos", "core/parser.py",
+         rep("        token = self.current()\n\n        if token.type == TokenType.STRING:", "        token = self.current()\n        self.pos = 0\n\n        if token.type == TokenType.STRING:"),
+         "TranslateError"),
+        ("P6 parser: EOF exit test dropped from the parse_list loop", "core/parser.py",
+         rep("            if self.current().type in (TokenType.LIST_END, TokenType.EOF, TokenType.ENVELOPE_END):\n                break\n\n            # Parse item value",
+             "            if self.current().type in (TokenType.LIST_END, TokenType.ENVELOPE_END):\n                break\n\n            # Parse item value"),
+         "parser_loops_ok"),
+        ("P7 parser: nesting check moved after the loop (prologue changed)", "core/parser.py",
+         rep("        self._check_deep_nesting(bracket_token)\n\n        items: list[Any] = []", "        items: list[Any] = []"),
+         "pin_parser_parse_list_prologue"),
+    ]
+
+
+def selftest(verbose=True):
+    import shutil
+    import subprocess
+    import tempfile
+    from pathlib import Path
+    verif = Path(__file__).resolve().parents[2]
+    th = verif / "coq" / "theories"
+    src = Path("/repo/src/octave_mcp")
+    results = []
+    for title, rel, mut, expect in _mutations():
+        d = Path(tempfile.mkdtemp(prefix="c20mut"))
+        try:
+            tree = d / "octave_mcp"
+            shutil.copytree(src, tree, ignore=shutil.ignore_patterns("__pycache__"))
+            (tree / rel).write_text(mut((tree / rel).read_text()))
+            try:
+                files = generate(tree)
+            except TranslateError as e:
+                got = "TranslateError"
+                results.append((title, expect, got, got == expect, str(e)[:120]))
+                continue
+            t = d / "T"
+            t.mkdir()
+            for fname, text in files.items():
+                (t / fname).write_text(text)
+            # copies of the obligation files, re-pointed at the mutated Gen files
+            for name in ("ExnFlowPinsParser", "ExnFlowLoopsObl", "ExnFlow"):
+                txt = (th / "Tools" / f"{name}.v").read_text()
+                txt = txt.replace("Gen.ParserLoopsGen", "T.ParserLoopsGen").replace("Gen.ExnFlowGen", "T.ExnFlowGen") \
+                         .replace("Tools.ExnFlowPinsParser", "T.ExnFlowPinsParser").replace("From OV Require Import", "From OV Require Import")
+                txt = txt.replace("From OV Require Import Gen.ParserLoopsGen.", "From T Require Import ParserLoopsGen.")
+                (t / f"{name}.v").write_text(txt)
+            got = "all obligations still hold"
+            detail = ""
+            for f in ("ParserLoopsGen", "ExnFlowGen", "ExnFlowPinsParser", "ExnFlowLoopsObl", "ExnFlow"):
+                p = subprocess.run(["timeout", "300", "coqc", "-Q", str(th), "OV", "-Q", str(t), "T", "-w", "none", str(t / f"{f}.v")],
+                                   cwd=d, stdout=subprocess.PIPE, stderr=subprocess.STDOUT, text=True)
+                if p.returncode != 0:
+                    m = __import__("re").search(r'line (\d+), characters', p.stdout)
+                    ln = int(m.group(1)) if m else 0
+                    lines = (t / f"{f}.v").read_text().splitlines()
+                    lemma = "?"
+                    for k in range(min(ln, len(lines)) - 1, -1, -1):
+                        mm = __import__("re").match(r"\s*(?:Lemma|Theorem)\s+(\w+)", lines[k])
+                        if mm:
+                            lemma = mm.group(1)
+                            break
+                    got = lemma
+                    detail = p.stdout.strip().splitlines()[-1][:120] if p.stdout.strip() else ""
+                    break
+            results.append((title, expect, got, got == expect, detail))
+        finally:
+            shutil.rmtree(d, ignore_errors=True)
+    if verbose:
+        for title, expect, got, ok, detail in results:
+            print(("ok   " if ok else "MISS ") + f"{title}: expected break at {expect}; got {got}  {detail}")
+    return results
+
+
+if __name__ == "__main__":
+    import sys
+    rs = selftest()
+    sys.exit(0 if all(r[3] for r in rs) else 1)
